@@ -59,7 +59,7 @@ def run(ctx):
     res.extra["wire_framing_cases"] = d.cases
     res.extra["length_limit_observed"] = {"longest_accepted": d.limit[0], "shortest_rejected": d.limit[1]}
     results, cover, shapes = common.e1_check(
-        ctx, res, PROFILE, n_quick=96, n_thorough=480, steps=150, steps_thorough=300,
+        ctx, res, PROFILE, n_quick=96, n_thorough=1920, steps=150, steps_thorough=300,
         relevant=lambda t: False,
         nontrivial_rule="(pure) Message::from_shared_str / to_string_with_source / Command::from_message of the live "
                         "sources against an independent reference grammar: exhaustive over a 5-letter alphabet plus random "
